@@ -64,7 +64,12 @@ impl Cube {
     /// Obtain the minterm for a value of the variables
     pub fn minterm(num_vars: usize, mask: usize) -> Cube {
         let m = mask as u32;
-        let tot = (1 << num_vars) - 1;
+        // Cubes hold at most 32 variables: the shift would overflow for the full width
+        let tot = if num_vars >= 32 {
+            !0u32
+        } else {
+            (1 << num_vars) - 1
+        };
         Cube {
             pos: m & tot,
             neg: !m & tot,
